@@ -227,13 +227,39 @@ impl Selection {
         }
     }
 
-    pub(crate) fn contains_fragment(&self, fragment_id: ResolvedFragmentId, query: &Query) -> bool {
+    /// Whether `fragment_id` is spread in this selection, directly or through other fragments.
+    pub(crate) fn contains_fragment(
+        &self,
+        fragment_id: ResolvedFragmentId,
+        query: &Query,
+        visited_fragments: &mut Vec<ResolvedFragmentId>,
+    ) -> bool {
         match self {
-            Selection::FragmentSpread(id) => *id == fragment_id,
-            _ => self.subselection().iter().any(|selection_id| {
+            Selection::FragmentSpread(id) if *id == fragment_id => true,
+            Selection::FragmentSpread(id) => {
+                if visited_fragments.contains(id) {
+                    return false;
+                }
+                visited_fragments.push(*id);
+
                 query
-                    .get_selection(*selection_id)
-                    .contains_fragment(fragment_id, query)
+                    .get_fragment(*id)
+                    .selection_set
+                    .iter()
+                    .any(|selection_id| {
+                        query.get_selection(*selection_id).contains_fragment(
+                            fragment_id,
+                            query,
+                            visited_fragments,
+                        )
+                    })
+            }
+            _ => self.subselection().iter().any(|selection_id| {
+                query.get_selection(*selection_id).contains_fragment(
+                    fragment_id,
+                    query,
+                    visited_fragments,
+                )
             }),
         }
     }
